@@ -52,8 +52,8 @@ def construct_expression_tree(
 
     # This means that we have a list as a leaf --> a function that we need to create.
     elif all([isinstance(item, str) for item in expression_ast]):
-        if expression_ast[0] in LEGAL_NUMERIC_OPERATORS:
-            # Probably someone trying to perform numerical operation on constants.
+        if expression_ast[0] in LEGAL_NUMERICAL_EXPRESSIONS:
+            # Probably someone trying to perform numerical operation on (or a comparison of) constants.
             if len(expression_ast) != 3:
                 raise SyntaxError(
                     f"Numerical operators are binary, received - {expression_ast}"
